@@ -5,6 +5,7 @@ package main
 
 import (
 	"fmt"
+	"os"
 	"go/types"
 	"sort"
 	"strings"
@@ -147,9 +148,14 @@ type Machine struct {
 	guardViol     int
 	lastSnapDiff  string
 	panicMsg      string
+	sigs          []sigRec
+	verifyCalls   int
+	verifyOK      int
 }
 
 const maxInstrPerPath = 400000
+
+var traceBranches = os.Getenv("GOSYM_TRACE") != ""
 
 func (m *Machine) declare(t *Term) {
 	if _, ok := m.vars[t.name]; ok {
@@ -265,6 +271,9 @@ func (m *Machine) branch(c *Term) bool {
 		return out
 	}
 	rt := m.feasible(c)
+	if traceBranches {
+		dbg("branch %s -> true:%s%s", c.String(), rt, m.where())
+	}
 	if rt == "unsat" {
 		m.trace = append(m.trace, Decision{Alt: 1, N: 1, Kind: "br"})
 		return false
